@@ -28,7 +28,8 @@ COMPONENTS = {"real": ["Transmitter", "TradingEnv.reset/step/notify", "IEvent.no
 PROBE_FLOORS = {"history_replay_with_latency": 100, "latent_last_before_first_step": 30, "date_change_in_latent_batch": 5,
                 "duplicate_timesteps": 118, "event_exactly_on_latency_bound": 100, "event_1us_after_latency_bound": 50,
                 "reset_after_abandonment": 100, "later_fold_with_latency": 50, "markov_reset": 100, "warmup_horizon": 100,
-                "single_event_day": 20, "empty_timestep_skipped": 19}
+                "single_event_day": 20, "empty_timestep_skipped": 19, "episode_after_observer_crash": 60,
+                "custom_events_loaded_from_table": 200}
 
 PROFILE = {
     "n_min": 2, "n_max": 10, "n_long": 30, "p_long": 0.08, "c_min": 1, "c_max": 3, "p_bar": 0.8, "extras_max": 12,
@@ -79,6 +80,13 @@ def generate(rng, i):
             script.append({"op": "step", "env": 0, "action": a})
     if not script:
         script = [{"op": "reset", "env": 0, "fold": folds[0], "np_seed": 1}]
+    resets = [j for j, op in enumerate(script) if op["op"] == "reset"]
+    if len(resets) >= 2 and rng.random() < 0.15:
+        # fault: an observer callback fails in the middle of delivery in one of the earlier episodes
+        # (during its history replay or inside a step); the episodes that follow must be delivered in full
+        e = rng.randrange(len(resets) - 1)
+        script.insert(resets[e + 1], {"op": "arm", "env": 0, "n": None})
+        script.insert(resets[e], {"op": "arm", "env": 0, "n": rng.choice([1, 2, 3, 5, 8, 13, 21, 34])})
     if rng.random() < 0.08:
         # fault: the transmitter is handed one more (unobserved, out-of-range) event after the environment was built
         resets = [j for j, op in enumerate(script) if op["op"] == "reset"]
@@ -344,6 +352,13 @@ def execute(scenario):
 
     h = sim.handles[0]
     for j, ep in enumerate(h.episodes):
+        if ep["reset"].get("exc") == "InjectedCrash" or any(st.get("exc") == "InjectedCrash" for st in ep["steps"]):
+            # the harness made an observer fail during this episode: its own delivery is cut short by
+            # construction; what is judged is every episode after it
+            probe("episode_cut_short_by_observer_crash")
+            if j + 1 < len(h.episodes):
+                probe("episode_after_observer_crash")
+            continue
         check_episode(env_spec, d, ep, sim, violate, probe)
         if j > 0 and not ep["failed"]:
             prev = h.episodes[j - 1]
